@@ -32,6 +32,12 @@ def run_check(pid, tier="quick", root=None, quiet=False, write=True):
             if not chk.violations:
                 raise
             chk.note(f"analysis incomplete after the violation(s) above: {e}")
+        deferred = getattr(chk, "deferred", [])
+        if deferred:
+            if not chk.violations:
+                raise AnalysisError(deferred[0] + (f" [+{len(deferred) - 1} more undecided obligation(s)]" if len(deferred) > 1 else ""))
+            for d in deferred:
+                chk.note(f"undecided obligation (a definite violation was found elsewhere): {d}")
         if write:
             if tier == "thorough" and os.environ.get("CNVLINT_NO_SELFTEST") != "1":
                 from . import mutate
